@@ -201,6 +201,27 @@ class FTarget:
         return "%" not in ident and ident.casefold() in F_RESERVED
 
 
+def minimal_failing(tcls, prefix, culprits, sub):
+    """the named culprits if they fail alone; otherwise the failure needs history (e.g. a uniqueness suffix that only a
+    second, colliding name receives): the shortest subsequence of the failing prefix that still fails"""
+    def fails(ops):
+        r = run_sequence(tcls, tuple(ops))[0]
+        return r is not None and r[0] == sub
+    if fails(culprits):
+        return list(culprits)
+    cur = list(prefix)
+    changed = True
+    while changed:
+        changed = False
+        for i in range(len(cur) - 1):
+            c = cur[:i] + cur[i + 1:]
+            if fails(c):
+                cur = c
+                changed = True
+                break
+    return cur
+
+
 def run_sequence(target_cls, seq):
     """Runs the lookups on a fresh manager; returns (violation or None, final table, n_transitions)"""
     tgt = target_cls()
@@ -354,6 +375,8 @@ def run_shard(desc, acc):
                 sub, detail, culprits = r
                 if sub == "stale-state":
                     culprits = [("var", "<p>verif_probe")]
+                else:
+                    culprits = minimal_failing(tcls, seq[:ntr + 1], culprits, sub)
                 sig = sig_of(sub, tname, culprits)
                 if sig not in reported:
                     reported.add(sig)
@@ -474,5 +497,6 @@ def replay(witness):
     if witness.get("phases"):
         return [{"sub": sub, "sig": sig_of(sub, tname, culprits) + " after a new phase", "witness": witness,
                  "detail": detail}]
+    culprits = minimal_failing(tcls, seq, culprits, sub)
     return [{"sub": sub, "sig": sig_of(sub, tname, culprits),
              "witness": {"target": tname, "sequence": [list(o) for o in culprits]}, "detail": detail}]
